@@ -320,6 +320,7 @@ def run(tier):
     apischema.cache.reset()
     from harness import probes
     probes.dynamic_over_default_conversion(R)
+    recursive_field_conversion_probe(R)
     T1 = "world * list conv * cty * cdata * cobs"
     bad, errs = core.run_coq_shards("C12", HEADER + "\n".join(worlds) + "\n", items,
                                     "(fun c : " + T1 + " => let '(w, dyn, t, d, o) := c in cres_matches (deserialize_c w 12 dyn t d) o)",
@@ -375,6 +376,72 @@ def serialization_probe(R, mod, w, src):
     except Exception as e:
         R.violation(f"serialization probe raised {type(e).__name__}: {e}", dict(source=src))
     finally:
+        apischema.cache.reset()
+
+
+REC_SRC = '''
+from dataclasses import dataclass, field
+from typing import List, Optional
+from apischema.conversions import LazyConversion
+from apischema.metadata import conversion
+
+@dataclass
+class Node:
+    value: int
+    child: Optional["Node"] = None
+    chain: Optional["Node"] = field(default=None, metadata=conversion(
+        deserialization=LazyConversion(lambda: from_list), serialization=LazyConversion(lambda: to_list)))
+
+def from_list(nodes: List[Node]) -> Node:
+    head = None
+    for node in reversed(nodes):
+        head = Node(node.value, node.child, head)
+    return head
+
+def to_list(node: Node) -> List[Node]:
+    result, cur = [], node
+    while cur is not None:
+        result.append(Node(cur.value, cur.child))
+        cur = cur.chain
+    return result
+'''
+
+
+def recursive_field_conversion_probe(R):
+    """a field-level conversion on a field typed by the enclosing recursive class applies there and only there"""
+    import apischema.cache
+    from typing import List
+    from apischema import deserialize, serialize, ValidationError
+    apischema.cache.reset()
+    mod = pyrun.exec_module(REC_SRC)
+    Node, from_list, to_list = mod.Node, mod.from_list, mod.to_list
+    info = dict(source=REC_SRC)
+    try:
+        data = {"value": 0, "child": {"value": 5}, "chain": [{"value": 1}, {"value": 2}]}
+        R.count("recursive_field_conversion_probe")
+        expected = Node(0, Node(5), from_list(deserialize(List[Node], data["chain"])))
+        try:
+            got = deserialize(Node, data)
+            if got != expected:
+                R.violation(f"deserialize(Node, d) = {got!r} differs from f(deserialize(S, d)) = {expected!r} at the converted field", info)
+        except ValidationError as e:
+            R.violation(f"the field conversion is not applied on a recursive class: {e.errors}", info)
+        for bad in ({"value": 0, "chain": {"value": 1}}, {"value": 0, "child": [{"value": 1}]}):
+            try:
+                deserialize(Node, bad)
+                R.violation(f"{bad!r} accepted: the source type of the field conversion is not enforced, or the conversion is "
+                            "applied where it is not declared", info)
+            except ValidationError:
+                pass
+        value = Node(0, Node(5), Node(1, None, Node(2)))
+        want = {"value": 0, "child": {"value": 5, "child": None, "chain": None}, "chain": serialize(List[Node], to_list(value.chain))}
+        got = serialize(Node, value)
+        if got != want:
+            R.violation(f"serialize(Node, v) = {got!r} differs from the serialization through g = {want!r}", info)
+    except Exception as e:
+        R.violation(f"{type(e).__name__} in the recursive field conversion probe: {e}", info)
+    finally:
+        pyrun.drop_module(mod)
         apischema.cache.reset()
 
 
